@@ -259,7 +259,7 @@ class Ctx:
         self.violations.append((what, replay_path))
 
     def write_replay(self, name, payload):
-        rp = os.path.join(self.out, "replay-%s.json" % name)
+        rp = os.path.join(self.out, "replay-%s.json" % re.sub(r"[^A-Za-z0-9_.-]+", "_", name))
         payload = dict(payload)
         payload.setdefault("property", self.pid)
         payload.setdefault("seed", self.seed)
